@@ -541,6 +541,10 @@ def register_pretty(type=None, predicate=None):
                 _DEFERRED_DISPATCH_BY_NAME[type] = fn
             else:
                 pretty_dispatch.register(type, partial(_run_pretty, fn))
+                # A direct registration replaces an earlier deferred one
+                # for the same class; without this the stale deferred
+                # printer would be promoted over it later.
+                _DEFERRED_DISPATCH_BY_NAME.pop(get_deferred_key(type), None)
         else:
             assert callable(predicate)
             _PREDICATE_REGISTRY.append((predicate, fn))
@@ -560,11 +564,10 @@ def is_registered(
             'register_deferred may not be True when check_deferred is False'
         )
 
-    if type in pretty_dispatch.registry:
-        return True
-
     if check_deferred:
-        # Check deferred printers for the type exactly.
+        # Check deferred printers for the type exactly. This comes before
+        # the registry lookup: a deferred printer is always the most recent
+        # registration for its class.
         deferred_key = get_deferred_key(type)
         if deferred_key in _DEFERRED_DISPATCH_BY_NAME:
             if register_deferred:
@@ -573,6 +576,9 @@ def is_registered(
                 )
                 register_pretty(type)(deferred_dispatch)
             return True
+
+    if type in pretty_dispatch.registry:
+        return True
 
     if not check_superclasses:
         return False
